@@ -5,6 +5,7 @@ package c07
 import (
 	"fmt"
 	"testing"
+	"testing/synctest"
 	"time"
 
 	"github.com/0xReLogic/Helios/internal/loadbalancer"
@@ -40,7 +41,7 @@ type e2eEvent struct {
 }
 
 func TestC07EndToEnd(t *testing.T) {
-	sub := lab.Sub("breaker-end-to-end", "rapid histories over {request, set backend behaviour good/5xx/unreachable/abort-mid-body, advance} against the real "+
+	sub := lab.Sub("breaker-end-to-end", "rapid histories over {request, request to a backend that never answers (cut by the 2 s handler timeout), set backend behaviour good/5xx/unreachable/abort-mid-body/103-then-5xx/103-then-200, advance} against the real "+
 		"LoadBalancer.ServeHTTP with circuit_breaker enabled by configuration, all five strategies, 1-3 scripted backends (L1), virtual time; "+
 		"monitor fed with client status + backend hit counts + published breaker state; non-trivial = breaker opened by proxied failures and half-open reached")
 	sub.NontrivialFloor(0.30)
@@ -56,6 +57,7 @@ func TestC07EndToEnd(t *testing.T) {
 		nb := rapid.IntRange(1, 3).Draw(rt, "backends")
 		n := rapid.IntRange(1, maxLen).Draw(rt, "n")
 		cfg := lab.BaseConfig(strategy, lab.Ones(nb))
+		cfg.Server.Timeouts.Handler = 2 // documented end-to-end handler timeout: a hanging backend is cut after 2 s
 		cfg.CircuitBreaker.Enabled = true
 		cfg.CircuitBreaker.FailureThreshold, cfg.CircuitBreaker.SuccessThreshold, cfg.CircuitBreaker.MaxRequests = c.FT, c.ST, c.MR
 		cfg.CircuitBreaker.IntervalSeconds, cfg.CircuitBreaker.TimeoutSeconds = int(c.Interval/time.Second), int(c.Timeout/time.Second)
@@ -77,7 +79,7 @@ func TestC07EndToEnd(t *testing.T) {
 			defer lb.Stop()
 			fn := lab.NewFakeNet()
 			fn.Install(lb)
-			behaviours := []lab.Behaviour{lab.Good, lab.Status5xx, lab.Unreachable, lab.AbortBody, lab.Status4xx}
+			behaviours := []lab.Behaviour{lab.Good, lab.Status5xx, lab.Unreachable, lab.AbortBody, lab.Status4xx, lab.Interim5xx, lab.InterimGood}
 			for bi := 0; bi < nb; bi++ {
 				b := rapid.SampledFrom(behaviours).Draw(rt, "initial")
 				fn.Set(lab.BackendHost(bi), b)
@@ -90,6 +92,61 @@ func TestC07EndToEnd(t *testing.T) {
 					pReq, pSet = 30, 40
 				}
 				switch {
+				case k < 6 && mon.state != mOpen: // the picked backend accepts the request and never answers
+					evs = append(evs, e2eEvent{Kind: "req-hang"})
+					saved := map[string]bool{}
+					for bi := 0; bi < nb; bi++ {
+						saved[lab.BackendHost(bi)] = true
+						fn.Set(lab.BackendHost(bi), lab.Park)
+					}
+					before := fn.Arrivals()
+					type res struct {
+						status  int
+						aborted bool
+						at      time.Time
+					}
+					ch := make(chan res, 1)
+					go func() {
+						st, _, _, ab := lab.Serve(lb, lab.Request("GET", "/hang", "10.0.0.9:4000", nil))
+						ch <- res{st, ab, time.Now()}
+					}()
+					synctest.Wait()
+					hit := fn.Arrivals() - before
+					var r res
+					if hit == 1 {
+						time.Sleep(2*time.Second + time.Millisecond) // the handler timeout ends it
+						synctest.Wait()
+					}
+					select {
+					case r = <-ch:
+					default:
+						viol = fmt.Sprintf("event #%d: a request to a backend that never answers was still running 1 ms after the handler timeout (2 s)", i)
+						fn.ReleaseAll()
+						<-ch
+						return
+					}
+					for bi := 0; bi < nb; bi++ {
+						fn.Set(lab.BackendHost(bi), lab.Good)
+						evs = append(evs, e2eEvent{Kind: "set", I: bi, B: "good"})
+					}
+					o := Obs{Invoked: hit == 1, After: publishedState(lb)}
+					o.Failed = o.Invoked && (r.aborted || r.status >= 500)
+					o.Err = !o.Invoked
+					if o.Invoked && !o.Failed {
+						viol = fmt.Sprintf("event #%d: request to a hanging backend ended with status %d after the handler timeout", i, r.status)
+						return
+					}
+					mon.Weak = true
+					at := r.at
+					if !o.Invoked {
+						at = time.Now()
+					}
+					v := mon.Step(at, o)
+					mon.Weak = false
+					if v != "" {
+						viol = fmt.Sprintf("event #%d (hanging backend cut by the handler timeout, status %d, backend hits %d): %s", i, r.status, hit, v)
+						return
+					}
 				case k < pReq:
 					evs = append(evs, e2eEvent{Kind: "req"})
 					before := fn.Arrivals()
